@@ -165,9 +165,13 @@ def gen_ro_sep(rng, cfg):
         s_c = add({'op': 'cons', 'id': 'c%d' % k, 'e': _lin_forms(rng, xs[k], a_used, b)}, cdeps, role='cons')
         last = s_c
         if own:
+            kw = {} if default_set is not None else {'anchor': s_c}
             last = add({'op': 'forall', 'id': 'c%d' % k, 'set': ref.set_constraints(blocks, zs),
-                        'blocks': blocks}, [s_c] + list(s_z.values()), role='set')
-        add({'op': 'st', 'm': 'm', 'ids': ['c%d' % k]}, [last] if own else [last, s_obj], role='st')
+                        'blocks': blocks}, [s_c] + list(s_z.values()), role='set', **kw)
+        # the set may also be attached AFTER the constraint object was handed to st() (same Python object)
+        st_after_cons_only = own and rng.random() < 0.4
+        add({'op': 'st', 'm': 'm', 'ids': ['c%d' % k]},
+            ([s_c] if st_after_cons_only else [last]) if own else [last, s_obj], role='st')
         # a constraint relying on the default set is only meaningful once the objective (and its set) exists
 
     # late extra variable (not in the objective): bounded, optionally integer
@@ -383,8 +387,11 @@ def gen_dro_sep(rng, cfg):
         s_c = add({'op': 'cons', 'id': 'c%d' % k, 'e': ce}, cdeps, role='cons')
         last = s_c
         if own:
-            last = add({'op': 'forall', 'id': 'c%d' % k, 'amb': an}, [s_c, s_amb['FG'.index(an)]], role='set')
-        add({'op': 'st', 'm': 'm', 'ids': ['c%d' % k]}, [last] + s_amb + ([] if own else [s_obj]), role='st')
+            kw = {} if default_amb is not None else {'anchor': s_c}
+            last = add({'op': 'forall', 'id': 'c%d' % k, 'amb': an}, [s_c, s_amb['FG'.index(an)]], role='set', **kw)
+        st_after_cons_only = own and rng.random() < 0.4
+        add({'op': 'st', 'm': 'm', 'ids': ['c%d' % k]},
+            [s_c if st_after_cons_only else last] + s_amb + ([] if own else [s_obj]), role='st')
     if s_u:
         add({'op': 'cons', 'id': 'bu1', 'e': ['<=', ['v', 'u'], ['c', 5.0]]}, [s_u], late=True, role='bound')
         add({'op': 'cons', 'id': 'bu2', 'e': ['>=', ['v', 'u'], ['c', 0.0]]}, [s_u], late=True, role='bound')
@@ -811,6 +818,7 @@ def tags_of(ops):
     nsets = 0
     kind = None
     expr_built = False
+    st_done = set()
     for op in ops:
         k = op['op']
         if k == 'model':
@@ -848,6 +856,10 @@ def tags_of(ops):
             tags.add('rvar_after_formulation')
         if k == 'st' and formulated:
             tags.add('constraint_after_formulation')
+        if k == 'st':
+            st_done.update(op.get('ids', []))
+        if k == 'forall' and op.get('id') in st_done and not op.get('env'):
+            tags.add('set_attached_after_st')
         if k in ('solve', 'soc_solve') and op.get('fault'):
             tags.add('fault_' + op['fault']['kind'])
         if k == 'solve' and op.get('solver', 'def') in ('def', 'lpg'):
@@ -994,6 +1006,10 @@ def check_case(case, props):
                         continue
                     if not rec['ok']:
                         if f:      # stdout broken / clock step: the call may raise, state must stay usable
+                            continue
+                        _its, r_chk, bad_chk = scratch(decl, set(done_sids), eng, soc=(k == 'soc_solve'))
+                        if not bad_chk and not r_chk['ok'] and r_chk.get('exc', [''])[0] == rec['exc'][0]:
+                            inconc('prefix_not_solvable:' + rec['exc'][0])     # the declared prefix fails from scratch as well
                             continue
                         viol('L3-solve-raises', '%s with %s raised %s under schedule #%d after %d steps: %s'
                              % (k, eng, rec['exc'], si, len(done_sids), rec.get('msg')), executed,
